@@ -195,8 +195,8 @@ PROPERTIES = {
         assumptions=['the executable webpki model of unit enum_certs (stated in its docstring)'],
     ),
     'C02': dict(
-        units=['wire', 'kani_wire'],
-        canaries=['wire', 'streams'],
+        units=['wire', 'kani_wire', 'crypto'],
+        canaries=['wire', 'streams', 'crypto'],
         extra=[validate.bincode_golden, validate.rpc_pairing, validate.write_sequence],
         scope='PER STREAM ONLY: the caller writes exactly the encoding of its request to the send half of ONE freshly opened bidirectional stream, finishes it, and returns exactly '
               '(status, headers, body) decoded from the receive half of that same stream; the serving side decodes one request from its stream, hands exactly that request to the '
